@@ -542,7 +542,7 @@ func assertGuarded(ta *ssa.TypeAssert) bool {
 
 
 func c16Extra(c *Ctx) {
-	c.rule("C16-R8", "ATOM/ORD: (a) a room is created in the manager's table only after looking the same name up under the same exclusive hold of RoomManager.mu (check and insert in one critical section: two first joins cannot each create a Room and lose one's members); (b) a connection is handed to the hub's register channel synchronously, before its read pump is started, so its unregister can never overtake its register and leave a dead connection registered for good")
+	c.rule("C16-R8", "ATOM/ORD: (a) a room is created in the manager's table only after looking the same name up under the same exclusive hold of RoomManager.mu (check and insert in one critical section: two first joins cannot each create a Room and lose one's members); (b) a connection is handed to the hub's register channel synchronously, before its read pump is started, so its unregister can never overtake its register and leave a dead connection registered for good; (c) Room objects are not unlinked from the manager's table by running code while a join is lookup-then-add in two critical sections (the unlinking functions have no non-test caller, or the join holds RoomManager.mu across both steps)")
 	// (a)
 	nIns := 0
 	for _, fn := range c.srcFuncs(wsPkg) {
@@ -581,6 +581,64 @@ func c16Extra(c *Ctx) {
 		})
 	}
 	c.Sites["C16-R8#room-table-inserts"] = nIns
+	// (c) a join is "look the room up (or create it), then add the member" - two critical sections. That is only
+	// sound while no Room object is unlinked from the manager's table behind a joiner's back: the functions that
+	// delete from / replace RoomManager.rooms have no caller in the module's non-test code (they are explicit
+	// administrative API), unless the join itself holds RoomManager.mu across lookup and add.
+	{
+		unlinkers := map[*ssa.Function]bool{}
+		for _, fn := range c.srcFuncs(wsPkg) {
+			eachInstr(fn, func(_ *ssa.BasicBlock, _ int, ins ssa.Instruction) {
+				switch x := ins.(type) {
+				case *ssa.Call:
+					if callName(x) == "builtin.delete" && loadedFromField(x.Call.Args[0], "RoomManager", "rooms") {
+						unlinkers[fn] = true
+					}
+				case *ssa.Store:
+					if isStoreToField(x, "RoomManager", "rooms") && !isFreshAlloc(x.Addr) {
+						unlinkers[fn] = true
+					}
+				}
+			})
+		}
+		joinAtomic := false
+		if add := c.fn(wsPkg, "RoomManager.AddConnectionToRoom"); add != nil {
+			// lookup/create and Room.Add between one Lock and its Unlock of RoomManager.mu
+			eachInstr(add, func(_ *ssa.BasicBlock, _ int, x ssa.Instruction) {
+				call, ok := x.(*ssa.Call)
+				if !ok || (callName(call) != "sync.RWMutex.Lock" && callName(call) != "sync.Mutex.Lock") {
+					return
+				}
+				if nt, _, ok := fieldOf(call.Call.Args[0]); ok && nt != nil && nt.Obj().Name() == "RoomManager" {
+					q := &pathQuery{fn: add, target: func(y ssa.Instruction) bool { return isCallTo(y, wsPath+".Room.Add") }, stop: func(y ssa.Instruction) bool {
+						return isCallTo(y, "sync.RWMutex.Unlock", "sync.Mutex.Unlock")
+					}}
+					if h, _ := q.after(x); h != nil {
+						joinAtomic = true
+					}
+				}
+			})
+		}
+		nCallers := 0
+		for _, rel := range c.modulePkgs() {
+			for _, fn := range c.srcFuncs(rel) {
+				k := 0
+				eachCall(fn, func(call ssa.CallInstruction) {
+					sf := staticFn(call)
+					if sf == nil || !unlinkers[sf] {
+						return
+					}
+					nCallers++
+					k++
+					c.ob("C16-R8", fnKey(fn)+"#unlinks-a-room-while-joins-are-two-step-"+itoa(k), call.Pos(), joinAtomic,
+						fnKey(sf)+" removes Room objects from the manager's table, and it is called from running code, while a join looks the room up and adds the member in two separate critical sections: a join that overlaps the removal adds the connection to a Room the manager no longer knows - the connection says it is in the room, broadcasts to the room miss it and the member list does not show it")
+				})
+			}
+		}
+		c.Sites["C16-R8#room-unlinking-functions"] = len(unlinkers)
+		c.Sites["C16-R8#callers-of-room-unlinking-functions"] = nCallers
+		c.ob("C16-R8", wsPkg+".RoomManager#rooms-are-not-unlinked-behind-a-joiner", token.NoPos, len(unlinkers) > 0 || joinAtomic, "no function that removes rooms was found: the rule's anchor (delete on RoomManager.rooms) is gone")
+	}
 	if nIns < 1 {
 		c.undecided("C16-R8: no insert into RoomManager.rooms found")
 	}
